@@ -1,15 +1,331 @@
-import Cppcms.C11.Model
-import Cppcms.C11.Spec
+import Cppcms.C11.Depth
+/-!
+# C11 — property theorems
+
+"JSON parsing accepts exactly well-formed documents; serialization round-trips."
+
+Model: `Model.lean` (tokenizer, `parse_stream` machine, writer; constants and tables from
+`Gen.lean`, regenerated from `src/json.cpp` on every run).  Specification: `Spec.lean`
+(RFC 3629, RFC 8259 grammar, predicates on trees; imports neither `Gen` nor `Model`).
+
+All theorems are for every `NumOps` instance (the numeric conversions of libc/libstdc++ are
+parameters); hypotheses about them (`NumLaw`, `NumIdem`) are explicit.  The counterexample
+theorems instantiate `NumOps` with `F64.ops`, the exact binary64 arithmetic the driver uses
+(compared bit-for-bit with glibc/libstdc++ by the correspondence run).
+-/
 namespace Cppcms.C11.Props
 open Cppcms Cppcms.C11 Cppcms.C11.Spec
 
-/-- `value::load`: on failure the target keeps its content, on success it holds the parsed tree. -/
+/-! ## Parsing -/
+
+/-- **parse_total.**  `parseStream` is a total function (the tokenizer and the machine are
+structural recursions: every loop iteration consumes a token or stops), and on every byte
+string it either fails or yields a tree whose strings and keys are valid UTF-8 (RFC 3629),
+whose object keys are unique (and in `std::map` order), which holds no undefined member, and
+whose nesting depth is at most 512 — for both `full` modes. -/
+theorem parse_total {N} (ops : NumOps N) (full : Bool) (inp : Bytes) :
+    match parseStream ops full inp with
+    | none => True
+    | some (v, _) => AllStringsUtf8 v ∧ KeysUnique v ∧ KeysSorted v ∧ NoUndefined v ∧ depth v ≤ 512 := by
+  cases h : parseStream ops full inp with
+  | none => trivial
+  | some p =>
+    obtain ⟨v, rest⟩ := p
+    obtain ⟨hg, hd⟩ := parseStream_good ops full inp v rest h
+    exact ⟨forall_mono (fun _ h => h.1) v hg, forall_mono (fun _ h => h.2.1) v hg,
+      forall_mono (fun _ h => h.2.2.1) v hg, forall_mono (fun _ h => h.2.2.2) v hg, hd⟩
+
+/-- **accepts_rfc8259.**  Every document of the RFC 8259 grammar (`Spec.Doc`: any
+insignificant whitespace, all escape forms, `\u` escapes with properly paired surrogates,
+unescaped multi-byte UTF-8, unique keys, numbers whose exact decimal the conversion accepts,
+i.e. finite) whose tree is within the depth bound is accepted, consumed completely, and
+yields exactly the tree the grammar assigns to it. -/
+theorem accepts_rfc8259 {N} (ops : NumOps N) (text : Bytes) (v : Value N)
+    (h : Doc ops text v) (hd : depth v ≤ 512) : parse ops text = some v := by
+  simp [parse, parse_doc ops h hd]
+
+/-- **failed_parse_leaves_target.**  `value::load`: when it returns false the target keeps its
+content; when parsing succeeds the target is the parsed tree (`out.swap(result)` happens on
+the success path only; the translator checks that `out` is mentioned nowhere else). -/
 theorem failed_parse_leaves_target {N} (ops : NumOps N) (target : Value N) (full : Bool) (inp : Bytes) :
     ((load ops target full inp).1 = false → (load ops target full inp).2 = target) ∧
-    (∀ v rest, parseStream ops full inp = some (v, rest) → load ops target full inp = (true, v)) := by
+    (∀ v rest, parseStream ops full inp = some (v, rest) → load ops target full inp = (true, v)) ∧
+    ((load ops target full inp).1 = false ↔ parseStream ops full inp = none) := by
   unfold load
   cases h : parseStream ops full inp with
   | none => simp
-  | some p => simp
+  | some p => obtain ⟨v, r⟩ := p; simp
+
+/-- **depth_bound_exact.**  `n` nested arrays `[[…]]` parse iff `1 ≤ n ≤ 512`
+(`json_max_depth`, read from the source by the translator), and then to the expected tree. -/
+theorem depth_bound_exact {N} (ops : NumOps N) (n : Nat) :
+    parse ops (nestText n) = if 1 ≤ n ∧ n ≤ 512 then some (nestVal (n - 1)) else none := by
+  by_cases h : 1 ≤ n ∧ n ≤ 512
+  · rw [if_pos h]
+    obtain ⟨m, rfl⟩ : ∃ m, n = m + 1 := ⟨n - 1, by omega⟩
+    refine accepts_rfc8259 ops _ _ ⟨[], _, [], ws_nil, ws_nil, val_nest ops m, by simp⟩ ?_
+    rw [depth_nestVal]; omega
+  · rw [if_neg h]
+    by_cases h0 : n = 0
+    · subst h0; exact parse_empty ops
+    · have : parseStream ops true (nestText n) = none := parse_too_deep ops true n (by omega) _
+      simp [parse, this]
+
+/-! ## Serialization -/
+
+/-- The statement of the property at full strength: *any* tree without undefined members,
+written in either form, parses back.  It is **false** of the code (three counterexamples
+below), so the theorem proved is `write_parse_roundtrip_partial`. -/
+def FullRoundtrip {N} (ops : NumOps N) : Prop :=
+  ∀ (v : Value N) (readable : Bool), NoUndefined v → KeysSorted v → depth v ≤ 512 →
+    ∃ text, save ops readable v = some text ∧ (parse ops text).isSome
+
+/-- **write_parse_roundtrip_partial.**  For a tree that holds no undefined member, whose
+strings and keys are valid UTF-8 (`StringsUtf8`), whose numbers lie in a set `fin` on which the
+external conversions satisfy `NumLaw` (`NumsFinite`; for binary64 `fin` = finite and not within
+1.5 ulp of `DBL_MAX`), whose objects are in `std::map` order (representation invariant) and
+which is at most 512 deep, writing in compact or readable form produces a text that parses
+back to the same tree with every number `x` replaced by `rt x` (its value after one trip
+through text). -/
+theorem write_parse_roundtrip_partial {N} (ops : NumOps N) (fin : N → Prop) (rt : N → N)
+    (hlaw : NumLaw ops fin rt) (v : Value N)
+    (hu : NoUndefined v) (hs : AllStringsUtf8 v) (hf : NumsFinite fin v) (hk : KeysSorted v) (hd : depth v ≤ 512)
+    (readable : Bool) :
+    ∃ text, save ops readable v = some text ∧ parse ops text = some (mapNum rt v) := by
+  have hw : Forall (WNode fin) v := by
+    have := forall_and v hu (forall_and v hs (forall_and v hf hk))
+    exact forall_mono (fun _ h => ⟨h.1, h.2.1, h.2.2.1, h.2.2.2⟩) v this
+  obtain ⟨t, w, e, hv, hws⟩ := wv ops fin rt hlaw v hw (if readable then some 0 else none)
+  refine ⟨t ++ w, e, ?_⟩
+  exact accepts_rfc8259 ops _ _ ⟨[], t, w, ws_nil, hws, hv, by simp⟩ (by rw [depth_mapNum]; exact hd)
+
+/-- **write_parse_roundtrip_second.**  "Exactly from the second round on": under `NumIdem`
+(a second trip through text changes no number) the tree obtained by the first round is
+reproduced exactly by every further round. -/
+theorem write_parse_roundtrip_second {N} (ops : NumOps N) (fin : N → Prop) (rt : N → N)
+    (hlaw : NumLaw ops fin rt) (hid : NumIdem fin rt) (v : Value N)
+    (hu : NoUndefined v) (hs : AllStringsUtf8 v) (hf : NumsFinite fin v) (hk : KeysSorted v) (hd : depth v ≤ 512)
+    (readable : Bool) :
+    ∃ t1 w t2, save ops readable v = some t1 ∧ parse ops t1 = some w ∧
+      save ops readable w = some t2 ∧ parse ops t2 = some w := by
+  obtain ⟨t1, e1, p1⟩ := write_parse_roundtrip_partial ops fin rt hlaw v hu hs hf hk hd readable
+  -- what the parser guarantees about its result
+  have hgood : AllStringsUtf8 (mapNum rt v) ∧ KeysSorted (mapNum rt v) ∧ NoUndefined (mapNum rt v) ∧ depth (mapNum rt v) ≤ 512 := by
+    have := parse_total ops true t1
+    unfold parse at p1
+    cases h : parseStream ops true t1 with
+    | none => rw [h] at p1; simp at p1
+    | some p =>
+      obtain ⟨v', r⟩ := p
+      rw [h] at p1 this
+      simp only [Option.map_some, Option.some.injEq] at p1
+      subst p1
+      exact ⟨this.1, this.2.2.1, this.2.2.2.1, this.2.2.2.2⟩
+  -- every number of the result is a fixed point of `rt`
+  have hfix : Forall (FixNode fin rt) (mapNum rt v) := fixed_mapNum fin rt hid v hf
+  have hf' : NumsFinite (fun x => fin x ∧ rt x = x) (mapNum rt v) :=
+    forall_mono (fun u h => by cases u <;> first | exact h | trivial) _ hfix
+  have hlaw' : NumLaw ops (fun x => fin x ∧ rt x = x) rt := fun x hx => hlaw x hx.1
+  obtain ⟨t2, e2, p2⟩ := write_parse_roundtrip_partial ops _ rt hlaw' (mapNum rt v) hgood.2.2.1 hgood.1 hf' hgood.2.1
+    hgood.2.2.2 readable
+  rw [mapNum_fixed fin rt _ hfix] at p2
+  exact ⟨t1, mapNum rt v, t2, e1, p1, e2, p2⟩
+
+/-! ### the full statement is false: three counterexamples (known findings) -/
+
+theorem parse_of_err {N} (ops : NumOps N) (inp r : Bytes) (h : next ops inp = (.err, r)) : parse ops inp = none := by
+  simp only [parse, parseStream, tokens_stop ops inp .err r h rfl, run, start_running, if_true]
+  simp [step, Cfg.start, Tok.scalar?, Cfg.fail]
+
+/-- **roundtrip_counterexample_invalid_utf8** (known finding `json-writer-invalid-utf8`).  For
+every `NumOps`: the string member `"\xFF"` is written raw, and the text is rejected by the
+final `utf8::validate` of `parse_string`. -/
+theorem roundtrip_counterexample_invalid_utf8 {N} (ops : NumOps N) :
+    NoUndefined (.str [255] : Value N) ∧ save ops false (.str [255]) = some [34, 255, 34] ∧
+    parse ops [34, 255, 34] = none := by
+  refine ⟨by simp [NoUndefined, Forall, DefinedNode], rfl, ?_⟩
+  apply parse_of_err ops _ []
+  have : parseString [255, 34] = none := by decide
+  simp [next, nextAux_false_cons, Gen.tokPunct, Gen.tokBlank, Gen.tokNewline, Gen.tokQuote, this]
+
+/-- **roundtrip_counterexample_nonfinite** (known finding `json-writer-nonfinite`).  With the
+exact binary64 instance: a number member holding +inf is written as `inf`, which is not JSON
+and is rejected. -/
+theorem roundtrip_counterexample_nonfinite :
+    NoUndefined (.num 0x7FF0000000000000 : Value Nat) ∧
+    save F64.ops false (.num 0x7FF0000000000000) = some [105, 110, 102] ∧
+    parse F64.ops [105, 110, 102] = none := by
+  refine ⟨by simp [NoUndefined, Forall, DefinedNode], rfl, ?_⟩
+  have : (parse F64.ops [105, 110, 102]).isNone = true := by decide +kernel
+  simpa using this
+
+/-- **roundtrip_counterexample_dbl_max** (known finding `json-writer-dbl-max`, found by this
+check).  `DBL_MAX` = 0x7FEFFFFFFFFFFFFF is finite, but `digits10+1 = 16` significant digits
+round it up to `1.797693134862316e+308`, which exceeds the double range: `num_get` reports
+overflow and the text is rejected. -/
+theorem roundtrip_counterexample_dbl_max :
+    F64.isFinite 0x7FEFFFFFFFFFFFFF = true ∧
+    save F64.ops false (.num 0x7FEFFFFFFFFFFFFF) =
+      some [49, 46, 55, 57, 55, 54, 57, 51, 49, 51, 52, 56, 54, 50, 51, 49, 54, 101, 43, 51, 48, 56] ∧
+    parse F64.ops [49, 46, 55, 57, 55, 54, 57, 51, 49, 51, 52, 56, 54, 50, 51, 49, 54, 101, 43, 51, 48, 56] = none := by
+  refine ⟨by decide +kernel, ?_, ?_⟩
+  · have : F64.print 0x7FEFFFFFFFFFFFFF =
+        [49, 46, 55, 57, 55, 54, 57, 51, 49, 51, 52, 56, 54, 50, 51, 49, 54, 101, 43, 51, 48, 56] := by decide +kernel
+    simp [save, writeValue, F64.ops, this]
+  · have : (parse F64.ops [49, 46, 55, 57, 55, 54, 57, 51, 49, 51, 52, 56, 54, 50, 51, 49, 54, 101, 43, 51, 48, 56]).isNone = true := by
+      decide +kernel
+    simpa using this
+
+/-- the full statement fails for the faithful model with exact binary64 numbers -/
+theorem full_roundtrip_false : ¬ FullRoundtrip F64.ops := by
+  intro h
+  obtain ⟨text, e, hp⟩ := h (.num 0x7FF0000000000000) false roundtrip_counterexample_nonfinite.1
+    (by simp [KeysSorted, Forall, SortedNode]) (by simp [depth])
+  rw [roundtrip_counterexample_nonfinite.2.1] at e
+  simp only [Option.some.injEq] at e
+  subst e
+  rw [roundtrip_counterexample_nonfinite.2.2] at hp
+  simp at hp
+
+mutual
+theorem writeValue_undef {N} (ops : NumOps N) : ∀ (v : Value N) (tabs : Option Nat), ¬ NoUndefined v → writeValue ops tabs v = none
+  | .undef, _, _ => rfl
+  | .null, _, h => absurd (by simp [NoUndefined, Forall, DefinedNode]) h
+  | .bool _, _, h => absurd (by simp [NoUndefined, Forall, DefinedNode]) h
+  | .num _, _, h => absurd (by simp [NoUndefined, Forall, DefinedNode]) h
+  | .str _, _, h => absurd (by simp [NoUndefined, Forall, DefinedNode]) h
+  | .arr items, tabs, h => by
+    have : ¬ ForallL DefinedNode items := by intro hl; exact h (by simp [NoUndefined, Forall, DefinedNode, hl])
+    simp [writeValue, writeItems_undef ops items _ this]
+  | .obj ms, tabs, h => by
+    have : ¬ ForallM DefinedNode ms := by intro hl; exact h (by simp [NoUndefined, Forall, DefinedNode, hl])
+    simp [writeValue, writeMembers_undef ops ms _ this]
+theorem writeItems_undef {N} (ops : NumOps N) : ∀ (l : List (Value N)) (tabs : Option Nat), ¬ ForallL DefinedNode l → writeItems ops tabs l = none
+  | [], _, h => absurd (by simp [ForallL]) h
+  | v :: rest, tabs, h => by
+    by_cases hv : NoUndefined v
+    · have : ¬ ForallL DefinedNode rest := by intro hl; exact h (by simp only [ForallL]; exact ⟨hv, hl⟩)
+      rw [writeItems, writeItems_undef ops rest tabs this]
+      cases writeValue ops tabs v <;> rfl
+    · rw [writeItems, writeValue_undef ops v tabs hv]
+theorem writeMembers_undef {N} (ops : NumOps N) : ∀ (l : List (Bytes × Value N)) (tabs : Option Nat), ¬ ForallM DefinedNode l → writeMembers ops tabs l = none
+  | [], _, h => absurd (by simp [ForallM]) h
+  | (k, v) :: rest, tabs, h => by
+    by_cases hv : NoUndefined v
+    · have : ¬ ForallM DefinedNode rest := by intro hl; exact h (by simp only [ForallM]; exact ⟨hv, hl⟩)
+      rw [writeMembers, writeMembers_undef ops rest tabs this]
+      cases writeValue ops tabs v <;> rfl
+    · rw [writeMembers, writeValue_undef ops v tabs hv]
+end
+
+/-- **write_undefined_throws.**  A tree with an undefined member anywhere cannot be written
+(`write_value` throws `bad_value_cast`), in either form. -/
+theorem write_undefined_throws {N} (ops : NumOps N) (v : Value N) (readable : Bool) (h : ¬ NoUndefined v) :
+    save ops readable v = none :=
+  writeValue_undef ops v _ h
+
+/-! ## Typed extraction -/
+
+/-- **int_extraction_exact_or_throws.**  `traits<integer>::get` modelled as "the exact integer
+value of the double if it has one within `[lo, hi]`, otherwise throw": the result is exactly
+the value of the double (`Spec.DblIsInt`: `(-1)^s · mant · 2^e = n` on the IEEE 754 fields)
+and in range; and it throws only when no such integer exists.  (Partial: that the C++
+`static_cast` + compare-back behaves like this for out-of-range values is undefined
+behaviour, observed differentially only.) -/
+theorem int_extraction_exact_or_throws (lo hi : Int) (bits : Nat) :
+    match getInt lo hi bits with
+    | some n => lo ≤ n ∧ n ≤ hi ∧ DblIsInt bits n
+    | none => ¬ ∃ n, lo ≤ n ∧ n ≤ hi ∧ DblIsInt bits n := by
+  unfold getInt
+  cases h : F64.toInt? bits with
+  | none =>
+    simp only
+    rintro ⟨n, _, _, hn⟩
+    rw [((toInt_spec bits n).mpr hn)] at h; cases h
+  | some n =>
+    by_cases hr : lo ≤ n ∧ n ≤ hi
+    · have e : (if (decide (lo ≤ n) && decide (n ≤ hi)) = true then some n else none) = some n := by simp [hr]
+      simp only [e]
+      exact ⟨hr.1, hr.2, (toInt_spec bits n).mp h⟩
+    · have e : (if (decide (lo ≤ n) && decide (n ≤ hi)) = true then some n else none) = none := by
+        simp only [Bool.and_eq_true, decide_eq_true_eq, hr, if_false]
+      simp only [e]
+      rintro ⟨n', h1, h2, hn'⟩
+      have := (toInt_spec bits n').mpr hn'
+      rw [h] at this
+      simp only [Option.some.injEq] at this
+      subst this
+      exact hr ⟨h1, h2⟩
+
+/-! ## Non-vacuity: instances meeting the hypotheses -/
+
+/-- 1.0 -/
+def one : Nat := 0x3FF0000000000000
+
+theorem number_one : Number [49] ⟨false, 1, 0⟩ := by
+  have := Number.mk false [49] [] none (Or.inr ⟨⟨by simp, by intro b hb; simp at hb; subst hb; unfold IsDigit; decide⟩, by simp⟩)
+    (Or.inl rfl) (by intro e sg ep h; cases h)
+  simpa [minusText, fracText, expText, expVal, natOf] using this
+
+theorem ofDec_one : F64.ops.ofDec ⟨false, 1, 0⟩ = some one := by decide +kernel
+
+/-- a document with whitespace, an escape, a surrogate pair, a nested array and a number:
+`{ "k\n" : [true, 1], "\ud83d\ude00" : null }` is in the grammar … -/
+example : ∃ v, Doc F64.ops
+    ([123, 32] ++ ([34, 107, 92, 110, 34] ++ [32] ++ 58 :: ([32] ++ (91 :: ([] ++ ([116, 114, 117, 101] ++ [] ++ 44 :: ([32] ++ [49])) ++ [] ++ [93]))) ++
+      [] ++ 44 :: ([32] ++ ([34, 92, 117, 100, 56, 51, 100, 92, 117, 100, 101, 48, 48, 34] ++ [32] ++ 58 :: ([32] ++ [110, 117, 108, 108])))) ++ [32, 125] ++ [10]) v ∧
+    depth v ≤ 512 := by
+  have ws1 : Ws [32] := by intro b hb; simp at hb; subst hb; left; rfl
+  have ws10 : Ws [10] := by intro b hb; simp at hb; subst hb; right; right; left; rfl
+  have k1 : StringLex [34, 107, 92, 110, 34] [107, 10] :=
+    ⟨[107, 92, 110], rfl, Chars.plain [107] _ _ (Utf8Char.u1 107 (by decide)) (by decide) (by decide)
+      (by intro b h; simp at h; subst h; decide)
+      (Chars.esc 110 10 [] [] (by unfold SimpleEsc; decide) Chars.nil)⟩
+  have k2 : StringLex [34, 92, 117, 100, 56, 51, 100, 92, 117, 100, 101, 48, 48, 34] (encodeUtf8 0x1F600) :=
+    ⟨[92, 117, 100, 56, 51, 100, 92, 117, 100, 101, 48, 48], rfl, by
+      have := Chars.pair 100 56 51 100 100 101 48 48 [] [] (by decide) (by decide) (by decide) (by decide) (by decide) (by decide)
+        (by decide) (by decide) (by decide) (by decide) (by decide) (by decide) Chars.nil
+      have e : 0x10000 + (hex4Val 100 56 51 100 - 0xD800) * 0x400 + (hex4Val 100 101 48 48 - 0xDC00) = 0x1F600 := by decide
+      rw [e] at this
+      simpa using this⟩
+  have varr : Val F64.ops (91 :: ([] ++ ([116, 114, 117, 101] ++ [] ++ 44 :: ([32] ++ [49])) ++ [] ++ [93])) (.arr [.bool true, .num one]) :=
+    Val.arr [] _ [] _ ws_nil ws_nil
+      (Elems.cons _ [] [32] [49] _ _ Val.tru ws_nil ws1 (Elems.one _ _ (Val.num [49] _ one number_one ofDec_one)))
+  have hm := Members.cons _ [107, 10] [32] [32] _ [] [32] _ _ _ k1 ws1 ws1 varr ws_nil ws1
+      (Members.one _ (encodeUtf8 0x1F600) [32] [32] _ _ k2 ws1 ws1 (Val.null (ops := F64.ops)))
+  refine ⟨_, ⟨[], _, [10], ws_nil, ws10, Val.obj [32] _ [32] _ ws1 ws1 hm (by decide), by simp⟩, ?_⟩
+  decide +kernel
+
+/-- … a tree and number set meeting the hypotheses of the round-trip theorems (`NumLaw`,
+`NumIdem` for the set `{1.0}`) -/
+theorem numLaw_one : NumLaw F64.ops (fun x => x = one) id := by
+  intro x hx
+  subst hx
+  refine ⟨⟨false, 1, 0⟩, ?_, ofDec_one⟩
+  have : F64.ops.print one = [49] := by decide +kernel
+  rw [this]; exact number_one
+
+example : ∃ text, save F64.ops true (.obj [([97], .arr [.num one, .str [120, 10, 195, 169], .null])]) = some text ∧
+    parse F64.ops text = some (.obj [([97], .arr [.num one, .str [120, 10, 195, 169], .null])]) := by
+  have h := write_parse_roundtrip_partial F64.ops (fun x => x = one) id numLaw_one
+    (.obj [([97], .arr [.num one, .str [120, 10, 195, 169], .null])])
+    (by simp [NoUndefined, Forall, ForallM, ForallL, DefinedNode])
+    (by
+      have u1 : Utf8 [97] := by simpa using Utf8.cons [97] [] (Utf8Char.u1 97 (by decide)) Utf8.nil
+      have u2 : Utf8 [120, 10, 195, 169] := by
+        have := Utf8.cons [120] _ (Utf8Char.u1 120 (by decide)) (Utf8.cons [10] _ (Utf8Char.u1 10 (by decide))
+          (Utf8.cons [195, 169] [] (Utf8Char.u2 195 169 (by decide) (by decide) (by unfold Tail; decide)) Utf8.nil))
+        simpa using this
+      simp [AllStringsUtf8, Forall, ForallM, ForallL, StrNode, keys, u1, u2])
+    (by simp [NumsFinite, Forall, ForallM, ForallL, FinNode])
+    (by simp [KeysSorted, Forall, ForallM, ForallL, SortedNode, keys])
+    (by decide +kernel) true
+  simpa [mapNum, mapNumM, mapNumL] using h
+
+example : NumIdem (fun x => x = one) id := fun x hx => ⟨hx, rfl⟩
+
+/-- `int_extraction_exact_or_throws` is not vacuous: 127.0 as `signed char`, 128.0 throws -/
+example : getInt (-128) 127 0x405FC00000000000 = some 127 ∧ getInt (-128) 127 0x4060000000000000 = none := by
+  decide +kernel
 
 end Cppcms.C11.Props
